@@ -226,4 +226,101 @@ def check_C13(run):
                 evaluations=s["observations"], distinct_nontrivial=s["distinct"], exhaustive=True)
 
 
-CHECKS = {"C06": check_C06, "C13": check_C13, "C20": check_C20, "C04": check_C04, "C05": check_C05, "C03": check_C03, "C01": check_C01, "C02": check_C02}
+# ---------------------------------------------------------------------------
+# C07-C11, C14: the vector-string language (Vector.tla, MC_Lang, Trace_Lang)
+# ---------------------------------------------------------------------------
+def tlc_strings(run, fam, mode, depth, seeds, tag):
+    """Runs the generator model MC_Lang and returns (path of NDJSON strings, number of strings)."""
+    res = vlib.run_tlc(run, "MC_Lang", dump=True, tag=tag,
+                       env={"VERIF_FAM": fam, "VERIF_MODE": mode, "VERIF_DEPTH": depth, "VERIF_SEEDS": seeds}, timeout=3000)
+    out = run.path("strings-%s.ndjson" % tag)
+    seen = set()
+    with open(out, "w") as f:
+        for m in re.finditer(r'^/\\ s = "((?:[^"\\\\]|\\\\.)*)"$', open(res["dump"]).read(), re.M):
+            t = m.group(1).replace('\\\\', '\\').replace('\\"', '"')
+            if t not in seen:
+                seen.add(t)
+                f.write(json.dumps({"s": t}) + "\n")
+    return out, len(seen)
+
+
+def lang_check(run, fams, pid_for, modes, deep, valid, edits, nbytes):
+    """modes: list of (mode, depth, seeds).  Returns (observations, distinct events, strings from TLC)."""
+    tot_obs = tot_dist = tot_tlc = 0
+    for fam in fams:
+        files = []
+        for (mode, depth, seeds) in modes:
+            p, n = tlc_strings(run, fam, mode, depth, seeds, "lang-%s-%s%s" % (fam, mode, depth))
+            files.append(p)
+            tot_tlc += n
+        allin = run.path("strings-%s.ndjson" % fam)
+        with open(allin, "w") as o:
+            for p in files:
+                o.write(open(p).read())
+        s = harness_json(run, ["lang", "-fam", fam, "-in", allin, "-valid", str(valid), "-edits", str(edits), "-bytes", str(nbytes),
+                               "-deep=%s" % ("true" if deep else "false"), "-out", run.work, "-tier", run.tier, "-pid", run.pid])
+        verdicts = vlib.validate_trace(run, "Trace_Lang", s["chunks"], pid=pid_for(fam), label="lang-" + fam)
+        judge(run, verdicts, describe=lambda ev: (ev.get("s") or ev.get("a", {}).get("s", ""))[:200])
+        tot_obs += s["observations"]
+        tot_dist += s["distinct"]
+        run.cov.setdefault("per_family", {})[fam] = s["extra"]
+        run.samples += [json.loads(json.dumps(x))["s"] if isinstance(x, dict) and "s" in x else x for x in s.get("samples", [])[:3]]
+    run.cov["strings_from_tlc_exploration"] = tot_tlc
+    return tot_obs, tot_dist, tot_tlc
+
+
+def lang_modes(run):
+    if run.quick:
+        return [("char", "1", "all"), ("token", "1", "all")]
+    return [("char", "1", "all"), ("token", "1", "all"), ("char", "2", "base"), ("token", "2", "base")]
+
+
+LANG_RULE = ("inputs: (i) every string TLC reaches in MC_Lang (character-level and token-level edit neighbourhoods of the seed vectors, "
+             "quick: 1 edit of every seed, thorough: + 2 edits of the base seed), (ii) seeded random accepted vectors of all levels with "
+             "permuted/omitted tokens, (iii) seeded random edits of those, (iv) seeded random byte strings and hand-picked degenerate strings; "
+             "each input x the three decoders of the family is one event validated by TLC against Vector.tla; distinct = distinct event")
+
+
+def check_C07(run):
+    obs, dist, n = lang_check(run, ["v3"], lambda f: "C07", lang_modes(run), False, 20000 if run.quick else 300000,
+                              30000 if run.quick else 500000, 10000 if run.quick else 200000)
+    return dict(level=MC, rule=LANG_RULE, evaluations=obs, distinct_nontrivial=dist, exhaustive=False)
+
+
+def check_C08(run):
+    obs, dist, n = lang_check(run, ["v2"], lambda f: "C08", lang_modes(run), False, 20000 if run.quick else 300000,
+                              30000 if run.quick else 500000, 10000 if run.quick else 200000)
+    return dict(level=MC, rule=LANG_RULE, evaluations=obs, distinct_nontrivial=dist, exhaustive=False)
+
+
+def _lang_both(run, deep):
+    modes = [("token", "1", "all")] if run.quick else [("token", "1", "all"), ("char", "1", "all"), ("token", "2", "base")]
+    return lang_check(run, ["v3", "v2"], lambda f: run.pid, modes, deep, 40000 if run.quick else 1000000,
+                      20000 if run.quick else 300000, 2000 if run.quick else 50000)
+
+
+def check_C09(run):
+    obs, dist, n = _lang_both(run, False)
+    return dict(level=MC, rule=LANG_RULE + "; for C09 additionally pairs of two spellings (order, X spelled/omitted) of one token set",
+                evaluations=obs, distinct_nontrivial=dist, exhaustive=False)
+
+
+def check_C10(run):
+    obs, dist, n = _lang_both(run, True)
+    return dict(level=MC, rule=LANG_RULE + "; accepted inputs are encoded, printed and decoded again", evaluations=obs, distinct_nontrivial=dist, exhaustive=False)
+
+
+def check_C11(run):
+    obs, dist, n = lang_check(run, ["v3", "v2"], lambda f: "C11", lang_modes(run), False, 5000 if run.quick else 50000,
+                              40000 if run.quick else 800000, 10000 if run.quick else 300000)
+    return dict(level=MC, rule=LANG_RULE + "; every rejection's errors.Is vector over the eleven exported sentinels is recorded",
+                evaluations=obs, distinct_nontrivial=dist, exhaustive=False)
+
+
+def check_C14(run):
+    obs, dist, n = _lang_both(run, True)
+    return dict(level=MC, rule=LANG_RULE + "; for accepted inputs the lower-level views and an independent lower-level decode of the projected "
+                "vector are recorded", evaluations=obs, distinct_nontrivial=dist, exhaustive=False)
+
+
+CHECKS = {"C07": check_C07, "C08": check_C08, "C09": check_C09, "C10": check_C10, "C11": check_C11, "C14": check_C14, "C06": check_C06, "C13": check_C13, "C20": check_C20, "C04": check_C04, "C05": check_C05, "C03": check_C03, "C01": check_C01, "C02": check_C02}
